@@ -20,6 +20,7 @@ type ringInfo struct {
 	fFR, fORD                  int
 	full, next                 *ssa.Function
 	methods                    map[string]*ssa.Function
+	capTerm string // what the constructor stores into the capacity field
 }
 
 func ringLeaf(st *types.Struct, fi int) string {
@@ -66,14 +67,20 @@ func resolveRing(w *World) (*ringInfo, error) {
 				ri.fFULL = fi
 			}
 			if u.Info()&types.IsInteger != 0 {
-				if !ci.Mutable[fi] && ci.Stores[fi] != nil && ci.Stores[fi].String() == "param:int" {
+				// the capacity: the integer field only the constructor stores (that it is the size argument itself,
+				// unmodified, is obligation Q2)
+				if !ci.Mutable[fi] && ci.Stores[fi] != nil {
+					if ri.fN >= 0 {
+						return nil, fmt.Errorf("two immutable integer fields: capacity not resolved")
+					}
 					ri.fN = fi
+					ri.capTerm = ci.Stores[fi].String()
 				}
 			}
 		}
 	}
 	if ri.fN < 0 {
-		return nil, fmt.Errorf("capacity field (immutable int set from the constructor's int parameter) not found")
+		return nil, fmt.Errorf("capacity field (immutable int set by the constructor) not found")
 	}
 	for _, fn := range all {
 		for _, b := range fn.Blocks {
@@ -455,6 +462,7 @@ func propC19(w *World, r *Report) {
 		}
 		r.Check(get(ri.fCUR) == "0" && (get(ri.fFULL) == "false" || get(ri.fFULL) == "<zero>") && (get(ri.fOLD) == "<zero>" || get(ri.fOLD) == "0"), "Q1", "constructor: position 0, not wrapped, mark 0", w.Pos(ri.Ctor.Pos()),
 			fmt.Sprintf("position=%s wrapped=%s mark=%s", get(ri.fCUR), get(ri.fFULL), get(ri.fOLD)))
+		r.Check(ri.capTerm == "param:int", "Q2", "constructor: the capacity is the size argument itself (exactly the requested number of slots)", w.Pos(ri.Ctor.Pos()), ri.capTerm)
 		r.Check(get(ri.fORD) == "makeslice(param:int)" && strings.Contains(get(ri.fFR), "makeslice(param:int)") || get(ri.fORD) == "makeslice(param:int)", "Q2", "constructor: both slices have n elements", w.Pos(ri.Ctor.Pos()), get(ri.fFR)+" ; "+get(ri.fORD))
 	}
 	// ---- Q1 / Q2 intervals
@@ -684,4 +692,16 @@ func checkRingMove(w *World, r *Report, rule string) {
 		descr = append(descr, fmt.Sprintf("[%s] position<-%s wrapped<-%s mark<-%s", strings.Join(conds, " ∧ "), st[ri.fCUR], st[ri.fFULL], st[ri.fOLD]))
 	}
 	r.Check(ok, rule, "ring Move: position <- (position+1) % n; wrapped set at 0; the mark expires exactly when the advanced position reaches it", w.Pos(fn.Pos()), strings.Join(descr, " | "))
+}
+
+// checkRingCapacityExact: the ring's constructor makes exactly as many slots as it is asked for (the capacity field is
+// the size argument itself). A constructor that rounds the size up (or down) silently changes how far back a recording
+// reaches and which frame is "gap frames earlier".
+func checkRingCapacityExact(w *World, r *Report, rule string) {
+	ri, err := resolveRing(w)
+	if err != nil {
+		r.Unknown(rule, "motion.FrameLoop", "-", err.Error())
+		return
+	}
+	r.Check(ri.capTerm == "param:int", rule, "ring constructor: the capacity is the size argument itself (exactly the requested number of slots)", w.Pos(ri.Ctor.Pos()), ri.capTerm)
 }
